@@ -13,7 +13,7 @@ const { SimFs } = require('./simfs')
 const smap = require('./smap')
 
 // two pairs share a base name in different directories
-const FILES = ['/sim/app/a.js', '/sim/app/lib/b.js', '/sim/other/a.js', '/sim/c.js', '/sim/app/lib/deep/b.js', '/sim/other/e.js', '/sim/app/a\u00f1adir.js', '/sim/app/gen\\util.js', '/sim/app/(shop)/cart.js', '/sim/Program Files (x86)/svc/index.js', '/sim/app/[id]/page:1.js', '/rootfile.js', 'file:///sim/esm/mod.mjs', 'file://host/share/x.js', 'file:///sim/esm/a%2Fb.mjs', '/sim/app/models/User.js', '/sim/app/models/user.js', '/sim/app/a$$b/y.js', "/sim/app/a$&b/x$'.js"]
+const FILES = ['/sim/app/a.js', '/sim/app/lib/b.js', '/sim/other/a.js', '/sim/c.js', '/sim/app/lib/deep/b.js', '/sim/other/e.js', '/sim/app/a\u00f1adir.js', '/sim/app/gen\\util.js', '/sim/app/(shop)/cart.js', '/sim/Program Files (x86)/svc/index.js', '/sim/app/[id]/page:1.js', '/rootfile.js', '/sim/app/lib/x.js', '/sim/app/li/bx.js', 'file:///sim/esm/mod.mjs', 'file://host/share/x.js', 'file:///sim/esm/a%2Fb.mjs', '/sim/app/models/User.js', '/sim/app/models/user.js', '/sim/app/a$$b/y.js', "/sim/app/a$&b/x$'.js"]
 
 function cfgOf (chain, comments) {
   return {
